@@ -36,6 +36,7 @@ func cmdCheck(args []string) int {
 	dump := fs.String("dump", "", "dump SMT of obligations whose name contains this")
 	noEvidence := fs.Bool("no-evidence", false, "do not write evidence / replay files")
 	noReplay := fs.Bool("no-replay", false, "do not run replay drivers on failed obligations")
+	withBounded := fs.Bool("bounded", false, "run the bounded stand-ins even with -no-replay")
 	fs.Parse(args)
 	if t := os.Getenv("VERIF_TIER"); t == "quick" || t == "thorough" {
 		*tier = t
@@ -48,6 +49,7 @@ func cmdCheck(args []string) int {
 	e := newEngine(*repo, *verif)
 	e.verbose = *verbose
 	e.noReplay = *noReplay
+	e.forceBounded = *withBounded
 	if err := e.discover(); err != nil {
 		fmt.Println("discover:", err)
 		return 2
